@@ -21,6 +21,7 @@ From TucModel Require Import Base.Bytes Base.ListX Model.Bounds Spec.Resolve Pro
   Tie.RsList Tie.Gen_ubl_unpack Tie.Bridge_ubl_unpack Tie.Gen_ubl_complement Tie.Bridge_ubl_complement
   Model.CutBytes Spec.BytesMode Tie.Gen_cut_bytes Tie.Bridge_cut_bytes
   Spec.Fields Proofs.ScanSplit Tie.RsScan Tie.Gen_fill_fields Tie.Bridge_fill_fields Tie.Gen_compress_delimiter Tie.Bridge_compress_delimiter
+  Proofs.C01More Tie.Gen_trim Tie.Bridge_trim
   Model.CutStr Tie.Gen_fast_output_parts Tie.Bridge_fast_output_parts Tie.Gen_fast_cut_record Tie.Bridge_fast_cut_record Proofs.C02
   Proofs.C13 Proofs.C06 Proofs.C03Full Proofs.C19 Proofs.C18Iff.
 Import ListNotations.
@@ -256,7 +257,30 @@ Theorem tie_C10_compress_ignores_its_buffer : forall (line d b1 b2 : bytes),
   gen_compress_delimiter line d b1 = gen_compress_delimiter line d b2.
 Proof. intros. rewrite !tie_compress_delimiter by assumption. reflexivity. Qed.
 
+(** C01 (-t), on the code as translated: [trim] removes from the chosen end(s) whole copies of the
+    delimiter and nothing else, stops as soon as the text no longer starts (ends) with one, terminates
+    within its fuel and cannot panic. *)
+Theorem tie_C01_trim_left : forall (buffer d : bytes),
+  d <> [] -> Z.of_nat (length buffer) + Z.of_nat (length d) <= usize_max ->
+  exists (k : nat) (rest : bytes),
+    gen_trim buffer TLeft d = Ret rest /\ buffer = copies d k ++ rest /\ strip_prefix d rest = None.
+Proof.
+  intros buffer d Hd Hlen. destruct (trim_left_spec d buffer Hd) as (k & E1 & E2).
+  exists k, (trim_left d buffer). split; [rewrite (tie_trim buffer TLeft d Hlen); reflexivity | split; assumption].
+Qed.
+
+Theorem tie_C01_trim_right : forall (buffer d : bytes),
+  d <> [] -> Z.of_nat (length buffer) + Z.of_nat (length d) <= usize_max ->
+  exists (k : nat) (rest : bytes),
+    gen_trim buffer TRight d = Ret rest /\ buffer = rest ++ copies d k /\ (forall x, rest <> x ++ d).
+Proof.
+  intros buffer d Hd Hlen. destruct (trim_right_spec d buffer Hd) as (k & E1 & E2).
+  exists k, (trim_right d buffer). split; [rewrite (tie_trim buffer TRight d Hlen); reflexivity | split; assumption].
+Qed.
+
 Print Assumptions tie_try_into_range_spec.
+Print Assumptions tie_C01_trim_left.
+Print Assumptions tie_C01_trim_right.
 Print Assumptions tie_C01_fields_locations.
 Print Assumptions tie_C10_compress_ignores_its_buffer.
 Print Assumptions tie_C02_fast_record_is_the_general_path.
